@@ -111,7 +111,7 @@ func (route *baseRoute) run() {
 // metricName returns the name part of a "name value timestamp" line:
 // filters are defined on the metric name, not on the value or the timestamp
 func metricName(buf []byte) []byte {
-	if pos := bytes.IndexByte(buf, ' '); pos > 0 {
+	if pos := bytes.IndexByte(buf, ' '); pos >= 0 {
 		return buf[:pos]
 	}
 	return buf
